@@ -2349,7 +2349,8 @@ class VM:
                     poll_callback = (
                         lambda: time.monotonic() - self.start_time > self.time_limit
                     )
-                regex_internal = InternalRegExp(to_string(pattern), "", poll_callback)
+                # (through JSRegExp: an invalid pattern is a SyntaxError for the script)
+                regex_internal = JSRegExp(to_string(pattern), "", poll_callback)._internal
                 is_global = False
 
             try:
@@ -2419,7 +2420,8 @@ class VM:
                     poll_callback = (
                         lambda: time.monotonic() - self.start_time > self.time_limit
                     )
-                regex_internal = InternalRegExp(to_string(pattern), "", poll_callback)
+                # (through JSRegExp: an invalid pattern is a SyntaxError for the script)
+                regex_internal = JSRegExp(to_string(pattern), "", poll_callback)._internal
 
             try:
                 vm_regex = regex_internal._create_vm()
